@@ -218,11 +218,11 @@ const std::vector<OpSchema>& own_schema()
         { "vec_shrink", {} },
         { "vec_take", { "slot", "idx" } },
         { "opt_default", { "opt" } },
-        { "opt_value", { "opt", "val" } },
+        { "opt_value", { "opt", "val", "lvalue" } },
         { "opt_rvalue", { "opt", "val" } },
         { "opt_copy_construct", { "opt", "from" } },
         { "opt_copy_assign", { "opt", "from" } },
-        { "opt_assign_value", { "opt", "val" } },
+        { "opt_assign_value", { "opt", "val", "lvalue" } },
         { "opt_assign_rvalue", { "opt", "val" } },
         { "opt_read", { "opt" } },
         { "opt_destroy", { "opt" } },
@@ -672,7 +672,10 @@ struct Exec
                 OptVal tmp(val);
                 if (op.kind == K_OPT_VALUE)
                 {
-                    res = guarded([&] { np = new Opt(static_cast<const OptVal&>(tmp)); });
+                    if (op.a[2] & 1)
+                        res = guarded([&] { np = new Opt(tmp); });
+                    else
+                        res = guarded([&] { np = new Opt(static_cast<const OptVal&>(tmp)); });
                     if (tmp.h.val != val)
                         fail("C18/optional:aliased", op, opi, arg, "constructing from a const value modified the caller's object");
                 }
@@ -749,7 +752,11 @@ struct Exec
                 OptVal tmp(val);
                 if (op.kind == K_OPT_ASSIGN_VALUE)
                 {
-                    res = guarded([&] { *opt[oi] = static_cast<const OptVal&>(tmp); });
+                    // from a const lvalue or from a plain (non-const) lvalue the caller keeps using
+                    if (op.a[2] & 1)
+                        res = guarded([&] { *opt[oi] = tmp; });
+                    else
+                        res = guarded([&] { *opt[oi] = static_cast<const OptVal&>(tmp); });
                     if (tmp.h.val != val)
                         fail("C18/optional:aliased", op, opi, arg, "assigning from a const value modified the caller's object");
                 }
